@@ -3,6 +3,7 @@ from engine.part import Part
 from harness import common
 
 META = {
+    'tier_note': 'quick and thorough use the same (thorough) bounds for this property',
     'level': 'model_checking',
     'claim': 'frame.frame_parts is executed symbolically on buffers of every length 0..16 (24 in the '
              'thorough tier) with all byte values symbolic: all 2^(8n) contents per length are covered '
@@ -59,6 +60,8 @@ def body(ch, tag, content):
 
 
 def partitions(tier, seed):
+    # the thorough bounds of this property exhaust in about a minute: the quick tier uses them too
+    tier = 'thorough'
     top = 16 if tier == 'quick' else 24
     parts = []
     for n in range(0, top + 1):
